@@ -150,9 +150,41 @@ theorem findFree_of_avail (st : St) (now : Nat) (f : Frame) (h : avail st f = tr
     rw [if_pos hf]
     exact ⟨hf, Or.inl (findFirst_found st (fun s => s.free) hf)⟩
 
+/-- no slot carries the TP flag (true as long as no TP.CM RTS/BAM frame has been received) -/
+def NoTP (st : St) : Prop := ∀ j, j < st.N → (st.slot j).tp = false
+
+theorem NoTP.init (n : Nat) : NoTP (init n) := fun _ _ => rfl
+
+theorem NoTP.setSlot {st : St} (hT : NoTP st) (i : Nat) (s : Slot) (hs : s.tp = false) : NoTP (setSlot st i s) := by
+  intro j hj
+  show (if j = i then s else st.slot j).tp = false
+  split
+  · exact hs
+  · exact hT j hj
+
+theorem NoTP.finish {st : St} (hT : NoTP st) (i : Nat) (s : Slot) (hs : s.tp = false) : NoTP (finish st i s).1 := by
+  unfold N2k.Rx.finish
+  split
+  · exact hT.setSlot i _ hs
+  · exact hT.setSlot i _ hs
+
+theorem NoTP.rxCore {st : St} (hT : NoTP st) (isFP : Nat → Bool) (now : Nat) (f : Frame) :
+    NoTP (rxCore isFP st now f).1 := by
+  unfold N2k.Rx.rxCore
+  split
+  · split
+    · split
+      · exact hT.finish _ _ (hT _ (by assumption))
+      · exact hT.setSlot _ _ (hT _ (by assumption))
+    · exact hT
+  · split
+    · refine hT.finish _ _ ?_
+      unfold initSlot; split <;> rfl
+    · exact hT
+
 /-- one handled frame: the slot machine makes the step of the abstract reassembler -/
 theorem rxCore_refines (isFP : Nat → Bool) (h0 : isFP 0 = false) (st : St) (H : List Frame) (S : SState)
-    (hI : Inv isFP st H) (hA : Abs st S) (now : Nat) (f : Frame) (hf : WFrame f)
+    (hI : Inv isFP st H) (hA : Abs st S) (hT : NoTP st) (now : Nat) (f : Frame) (hf : WFrame f)
     (hav : (isFP f.pgn && f.byte 0 % 32 != 0) = false → avail st f = true) :
     Abs (rxCore isFP st now f).1 (step isFP S f).1 ∧ (rxCore isFP st now f).2 = (step isFP S f).2 := by
   unfold rxCore step
@@ -165,15 +197,17 @@ theorem rxCore_refines (isFP : Nat → Bool) (h0 : isFP 0 = false) (st : St) (H 
     by_cases hi : findSlot st f < st.N
     · rw [if_pos hi]
       have hfound : matchP f (st.slot (findSlot st f)) = true := findFirst_found st (matchP f) hi
-      obtain ⟨hpg, hsr⟩ := (matchP_iff f _).mp hfound
-      have hoth := hI.others_of_match h0 f _ hi hfound
+      obtain ⟨hpg, hsr, htp⟩ := (matchP_iff f _).mp hfound
+      have hoth : ∀ j, j < st.N → j ≠ findSlot st f → (st.slot j).free = false →
+          ¬ ((st.slot j).pgn = f.pgn ∧ (st.slot j).src = f.src) :=
+        fun j hj hji hfj => hI.others_of_match h0 f _ hi hfound j hj hji hfj (hT j hj)
       have hnf : (st.slot (findSlot st f)).free = false := by
         cases hfr : (st.slot (findSlot st f)).free with
         | false => rfl
         | true =>
           have := hI.free _ hi hfr
           rw [this] at hpg; rw [← hpg, h0] at hfp; cases hfp
-      obtain ⟨_, ⟨f0, hw⟩, _⟩ := hI.busy _ hi hnf
+      obtain ⟨_, ⟨f0, hw⟩, _⟩ := hI.busy _ hi hnf htp
       -- the abstract message of this key is the slot's history
       have hS : S f.pgn f.src = (st.slot (findSlot st f)).hist := by
         rcases hA f.pgn f.src with ⟨_, h2⟩ | ⟨j, hj, hfj, hpj, hsj, hhj⟩
@@ -216,7 +250,7 @@ theorem rxCore_refines (isFP : Nat → Bool) (h0 : isFP 0 = false) (st : St) (H 
       have hS : S f.pgn f.src = [] := by
         rcases hA f.pgn f.src with ⟨h1, _⟩ | ⟨j, hj, _, hpj, hsj, _⟩
         · exact h1
-        · exact absurd ⟨hpj, hsj⟩ (Inv.others_of_nomatch f hi j hj)
+        · exact absurd ⟨hpj, hsj⟩ (Inv.others_of_nomatch f hi j hj (hT j hj))
       rw [hS]
       exact ⟨hA, rfl⟩
   · -- first / single frame
@@ -227,13 +261,15 @@ theorem rxCore_refines (isFP : Nat → Bool) (h0 : isFP 0 = false) (st : St) (H 
       | true => exact absurd h hc
     obtain ⟨hi, hslot⟩ := findFree_of_avail st now f (hav hc')
     rw [if_pos hi]
-    have hoth := hI.others_of_findFree h0 now f hi
+    have hoth : ∀ j, j < st.N → j ≠ findFree st now f → (st.slot j).free = false →
+        ¬ ((st.slot j).pgn = f.pgn ∧ (st.slot j).src = f.src) :=
+      fun j hj hji hfj => hI.others_of_findFree h0 now f hi j hj hji hfj (hT j hj)
     have hold : (st.slot (findFree st now f)).free = false →
         (st.slot (findFree st now f)).pgn = f.pgn ∧ (st.slot (findFree st now f)).src = f.src := by
       intro hb
       rcases hslot with hfr | hm
       · rw [hfr] at hb; cases hb
-      · exact (matchP_iff f _).mp hm
+      · exact ⟨((matchP_iff f _).mp hm).1, ((matchP_iff f _).mp hm).2.1⟩
     cases hfp : isFP f.pgn with
     | false =>
       simp only [Bool.false_eq_true, ↓reduceIte]
@@ -249,7 +285,7 @@ theorem rxCore_refines (isFP : Nat → Bool) (h0 : isFP 0 = false) (st : St) (H 
         cases hb : (st.slot (findFree st now f)).free with
         | true => rfl
         | false =>
-          have := (hI.busy _ hi hb).1
+          have := (hI.busy _ hi hb (hT _ hi)).1
           rw [(hold hb).1, hfp] at this; cases this
       refine ⟨hA.update_free _ _ hwasfree rfl, ?_⟩
       simp only [msgOf, initSlot, Bool.false_eq_true, ↓reduceIte, copy_single f hf, Option.some.injEq]
